@@ -29,6 +29,15 @@ type c04Set struct {
 	// Exprs: per column "" (bare column) or a scalar-function template over the column ("upper(%s)", "sqrt(%s)");
 	// such a key is grouped by its value, NULL when the function has no value for the row
 	Exprs []string
+	// Names: column names of this set (default a, devId, c3)
+	Names []string
+}
+
+func (s c04Set) col(i int) string {
+	if i < len(s.Names) {
+		return s.Names[i]
+	}
+	return c04ColNames[i]
 }
 
 // c04ExprValue: the value of a function-expression key for a raw column value (NULL when the function errors).
@@ -51,48 +60,51 @@ func c04ExprValue(tmpl string, v any) any {
 // outName: the name under which grouping column i is reported.
 func (s c04Set) outName(i int) string {
 	if i < len(s.Exprs) && s.Exprs[i] != "" {
-		return "g" + c04ColNames[i]
+		return "g" + s.col(i)
 	}
 	if s.Upper {
 		return "ua"
 	}
 	if s.Alias && i > 0 {
-		return c04ColNames[i] + "_x"
+		return s.col(i) + "_x"
 	}
-	return c04ColNames[i]
+	return s.col(i)
 }
 
 var us = "\x1f"
 
 var c04Sets = []c04Set{
-	{"none", 0, []c04Tuple{{}}, false, false, false, nil},
-	{"pipe1", 1, []c04Tuple{{"a|b"}, {"a"}, {"b"}, {""}}, false, false, false, nil},
-	{"null1", 1, []c04Tuple{{nil}, {""}, {"\x00NULL"}}, false, false, false, nil},
-	{"missing1", 1, []c04Tuple{{c04Missing}, {""}, {"a"}}, false, false, false, nil},
-	{"num1", 1, []c04Tuple{{1}, {1.5}, {-1}, {0}}, false, false, false, nil},
-	{"us1", 1, []c04Tuple{{"a" + us + "b"}, {"a"}, {"b"}}, false, false, false, nil},
-	{"upper1", 1, []c04Tuple{{"a"}, {"A"}, {"b"}}, true, false, false, nil},
-	{"pipe2", 2, []c04Tuple{{"a|b", "c"}, {"a", "b|c"}, {"a", "b"}}, false, false, false, nil},
-	{"us2", 2, []c04Tuple{{"a" + us + "b", "c"}, {"a", "b" + us + "c"}, {"a", "c"}}, false, false, false, nil},
-	{"null2", 2, []c04Tuple{{nil, "x"}, {"", "x"}, {"\x00NULL", "x"}}, false, false, false, nil},
-	{"comma2", 2, []c04Tuple{{"a,b", "c"}, {"a", "b,c"}, {"1", "2"}}, false, false, false, nil},
-	{"num2", 2, []c04Tuple{{1, 1.5}, {1, -1}, {0, 1}}, false, false, false, nil},
-	{"bignum1", 1, []c04Tuple{{16777216.0}, {16777217.0}, {9007199254740992.0}, {0.1}}, false, false, false, nil},
-	{"bignum2", 2, []c04Tuple{{1700000000123.0, "x"}, {1700000000124.0, "x"}, {1700000000123.0, "y"}}, false, false, false, nil},
-	{"bigint1", 1, []c04Tuple{{int64(9007199254740993)}, {int64(9007199254740992)}, {int64(-9007199254740993)}}, false, false, false, nil},
-	{"nullnull2", 2, []c04Tuple{{nil, nil}, {"", ""}, {"a", nil}}, false, false, false, nil},
-	{"pipe3", 3, []c04Tuple{{"a|b", "c", "d"}, {"a", "b|c", "d"}, {"a", "b", "c|d"}}, false, false, false, nil},
-	{"empty3", 3, []c04Tuple{{"a", "", "b"}, {"a", "b", ""}, {"", "a", "b"}}, false, false, false, nil},
+	{"none", 0, []c04Tuple{{}}, false, false, false, nil, nil},
+	{"pipe1", 1, []c04Tuple{{"a|b"}, {"a"}, {"b"}, {""}}, false, false, false, nil, nil},
+	{"null1", 1, []c04Tuple{{nil}, {""}, {"\x00NULL"}}, false, false, false, nil, nil},
+	{"missing1", 1, []c04Tuple{{c04Missing}, {""}, {"a"}}, false, false, false, nil, nil},
+	{"num1", 1, []c04Tuple{{1}, {1.5}, {-1}, {0}}, false, false, false, nil, nil},
+	{"us1", 1, []c04Tuple{{"a" + us + "b"}, {"a"}, {"b"}}, false, false, false, nil, nil},
+	{"upper1", 1, []c04Tuple{{"a"}, {"A"}, {"b"}}, true, false, false, nil, nil},
+	{"pipe2", 2, []c04Tuple{{"a|b", "c"}, {"a", "b|c"}, {"a", "b"}}, false, false, false, nil, nil},
+	{"us2", 2, []c04Tuple{{"a" + us + "b", "c"}, {"a", "b" + us + "c"}, {"a", "c"}}, false, false, false, nil, nil},
+	{"null2", 2, []c04Tuple{{nil, "x"}, {"", "x"}, {"\x00NULL", "x"}}, false, false, false, nil, nil},
+	{"comma2", 2, []c04Tuple{{"a,b", "c"}, {"a", "b,c"}, {"1", "2"}}, false, false, false, nil, nil},
+	{"num2", 2, []c04Tuple{{1, 1.5}, {1, -1}, {0, 1}}, false, false, false, nil, nil},
+	{"bignum1", 1, []c04Tuple{{16777216.0}, {16777217.0}, {9007199254740992.0}, {0.1}}, false, false, false, nil, nil},
+	{"bignum2", 2, []c04Tuple{{1700000000123.0, "x"}, {1700000000124.0, "x"}, {1700000000123.0, "y"}}, false, false, false, nil, nil},
+	{"bigint1", 1, []c04Tuple{{int64(9007199254740993)}, {int64(9007199254740992)}, {int64(-9007199254740993)}}, false, false, false, nil, nil},
+	{"nullnull2", 2, []c04Tuple{{nil, nil}, {"", ""}, {"a", nil}}, false, false, false, nil, nil},
+	{"pipe3", 3, []c04Tuple{{"a|b", "c", "d"}, {"a", "b|c", "d"}, {"a", "b", "c|d"}}, false, false, false, nil, nil},
+	{"empty3", 3, []c04Tuple{{"a", "", "b"}, {"a", "b", ""}, {"", "a", "b"}}, false, false, false, nil, nil},
 	// "reports that tuple under the selected column names": an un-renamed column before renamed ones
-	{"alias2", 2, []c04Tuple{{"a", "x"}, {"a", "y"}, {"b", "x"}}, false, true, false, nil},
-	{"alias3", 3, []c04Tuple{{"a", "x", 1}, {"a", "y", 1}, {"a", "x", 2}}, false, true, false, nil},
+	{"alias2", 2, []c04Tuple{{"a", "x"}, {"a", "y"}, {"b", "x"}}, false, true, false, nil, nil},
+	{"alias3", 3, []c04Tuple{{"a", "x", 1}, {"a", "y", 1}, {"a", "x", 2}}, false, true, false, nil, nil},
 	// GROUP BY on a nested path; time windows only (keyed windows do not resolve qualified keys: known finding under C16)
-	{"nested1", 1, []c04Tuple{{"p"}, {"q"}, {nil}}, false, false, true, nil},
-	{"nested2", 2, []c04Tuple{{"p", 1}, {"q", 1}, {"p", 2}}, false, false, true, nil},
+	{"nested1", 1, []c04Tuple{{"p"}, {"q"}, {nil}}, false, false, true, nil, nil},
+	{"nested2", 2, []c04Tuple{{"p", 1}, {"q", 1}, {"p", 2}}, false, false, true, nil, nil},
 	// function-expression keys next to bare columns and next to each other; the first function has no value for some rows
-	{"col-func", 2, []c04Tuple{{"r", "x"}, {"r", "y"}, {"s", "x"}, {"r", "X"}}, false, false, false, []string{"", "upper(%s)"}},
-	{"func-col", 2, []c04Tuple{{"x", "r"}, {"y", "r"}, {"X", "s"}}, false, false, false, []string{"upper(%s)", ""}},
-	{"func-func", 2, []c04Tuple{{4, "x"}, {4, "y"}, {c04Missing, "x"}, {c04Missing, "y"}, {-1, "x"}}, false, false, false, []string{"sqrt(%s)", "upper(%s)"}},
+	{"col-func", 2, []c04Tuple{{"r", "x"}, {"r", "y"}, {"s", "x"}, {"r", "X"}}, false, false, false, []string{"", "upper(%s)"}, nil},
+	{"func-col", 2, []c04Tuple{{"x", "r"}, {"y", "r"}, {"X", "s"}}, false, false, false, []string{"upper(%s)", ""}, nil},
+	{"func-func", 2, []c04Tuple{{4, "x"}, {4, "y"}, {c04Missing, "x"}, {c04Missing, "y"}, {-1, "x"}}, false, false, false, []string{"sqrt(%s)", "upper(%s)"}, nil},
+	// grouping columns whose names differ only in letter case are different columns
+	{Name: "case-names2", Cols: 2, Tuples: []c04Tuple{{"a", 1}, {"a", 2}, {"b", 2}}, Names: []string{"site", "SITE"}},
+	{Name: "case-names-func2", Cols: 2, Tuples: []c04Tuple{{"x", "x"}, {"x", "y"}, {"y", "y"}}, Exprs: []string{"upper(%s)", "upper(%s)"}, Names: []string{"k", "K"}},
 }
 
 var c04Kinds = []string{"tumbling", "counting", "session", "global"}
@@ -171,7 +183,7 @@ func c04SQL(set c04Set, kind string) string {
 	var sel, grp []string
 	for i := 0; i < set.Cols; i++ {
 		if i < len(set.Exprs) && set.Exprs[i] != "" {
-			e := fmt.Sprintf(set.Exprs[i], c04ColNames[i])
+			e := fmt.Sprintf(set.Exprs[i], set.col(i))
 			sel = append(sel, e+" AS "+set.outName(i))
 			grp = append(grp, e)
 		} else if set.Upper {
@@ -181,11 +193,11 @@ func c04SQL(set c04Set, kind string) string {
 			sel = append(sel, "d.x AS a")
 			grp = append(grp, "d.x")
 		} else if set.Alias && i > 0 {
-			sel = append(sel, c04ColNames[i]+" AS "+set.outName(i))
-			grp = append(grp, c04ColNames[i])
+			sel = append(sel, set.col(i)+" AS "+set.outName(i))
+			grp = append(grp, set.col(i))
 		} else {
-			sel = append(sel, c04ColNames[i])
-			grp = append(grp, c04ColNames[i])
+			sel = append(sel, set.col(i))
+			grp = append(grp, set.col(i))
 		}
 	}
 	sel = append(sel, "count(*) AS c", "collect(id) AS ids")
@@ -324,7 +336,7 @@ func c04Feed(set c04Set, kind string, seq []int) func(e *Env) {
 					r["x"] = fmt.Sprint("shadow", id%2) // a top-level column named like the last path segment
 					continue
 				}
-				r[c04ColNames[i]] = c
+				r[set.col(i)] = c
 			}
 			return r
 		}
